@@ -33,6 +33,16 @@ MemPlugin = None
 COLLECTIVE_TIMEOUT_S = float(os.environ.get("VERIF_COLLECTIVE_TIMEOUT_S", "20"))
 
 
+def wait_limit() -> float:
+    """Bounded wait used only to turn a genuine deadlock into an exception. It scales with machine load
+    (1-minute load average per core), so an oversubscribed machine does not turn slowness into a 'hang'."""
+    try:
+        factor = max(1.0, os.getloadavg()[0] / max(os.cpu_count() or 1, 1))
+    except OSError:
+        factor = 1.0
+    return COLLECTIVE_TIMEOUT_S * min(factor, 60.0)
+
+
 class Mismatch(Exception):
     """Collective mismatch or missing participant (would be a hang / crash on a real process group)."""
 
@@ -207,7 +217,7 @@ class Hub:
                     self.cv.notify_all()
                     break
                 self.cv.wait(timeout=0.05)
-                if time.time() - t0 > COLLECTIVE_TIMEOUT_S:
+                if time.time() - t0 > wait_limit():
                     self.failed = f"timeout at collective #{seq}: arrived {sorted((r, o) for r, (o, _) in slot.items())}"
                     self.cv.notify_all()
             if self.failed:
@@ -240,7 +250,7 @@ class FakeStore:
         self.d: Dict[str, bytes] = {}
         self.cv = threading.Condition()
         self.log: List[Tuple] = []
-        self.timeout_s = COLLECTIVE_TIMEOUT_S
+        self.timeout_s = None
 
     def set(self, k, v):
         with self.cv:
@@ -253,7 +263,7 @@ class FakeStore:
             t0 = time.time()
             while k not in self.d:
                 self.cv.wait(0.05)
-                if time.time() - t0 > self.timeout_s:
+                if time.time() - t0 > (self.timeout_s or wait_limit()):
                     raise RuntimeError(f"store get timeout: {k}")
             self.log.append(("get", current_rank(), k))
             return self.d[k]
@@ -263,7 +273,7 @@ class FakeStore:
             t0 = time.time()
             while not all(k in self.d for k in keys):
                 self.cv.wait(0.05)
-                if time.time() - t0 > self.timeout_s:
+                if time.time() - t0 > (self.timeout_s or wait_limit()):
                     raise RuntimeError(f"store wait timeout: {[k for k in keys if k not in self.d]}")
             self.log.append(("wait", current_rank(), tuple(keys)))
 
@@ -307,7 +317,7 @@ class World:
             for t in ths:
                 t.start()
             for t in ths:
-                t.join(timeout=COLLECTIVE_TIMEOUT_S * 6)
+                t.join(timeout=wait_limit() * 6)
                 if t.is_alive():
                     self.hub.failed = self.hub.failed or "rank thread did not finish"
                     with self.hub.cv:
